@@ -36,7 +36,7 @@ CONFIGS = [
      ['mesh', 'face_node', 'node_x', 'node_y', 'edge_face']),
     ('ugrid edge_node only', inputs.ugrid, {'edges': 'edge_node'}, ['mesh', 'face_node', 'node_x', 'node_y', 'edge_node']),
 ]
-EDITS = ['value', 'dtype', 'reshape', 'rename', 'attr-add', 'attr-change', 'attr-remove', 'encoding-dtype']
+EDITS = ['value', 'dtype', 'reshape', 'rename', 'attr-add', 'attr-add-underscore', 'attr-change', 'attr-remove', 'encoding-dtype']
 
 
 def scenarios(tier):
@@ -271,9 +271,9 @@ def _edited(c, ds, G, gi, edit):
         return ds2, ('reshape',)
     if edit == 'rename':
         return None      # handled through the inventory: a renamed variable changes the name chunk (see scn_trace)
-    if edit == 'attr-add':
+    if edit in ('attr-add', 'attr-add-underscore'):
         attrs = dict(v.attrs)
-        attrs['verif_extra'] = 'x'
+        attrs['verif_extra' if edit == 'attr-add' else '_FillValue'] = 'x' if edit == 'attr-add' else -999
         ds2._vars[g] = Variable(v.dims, v.arr, attrs, v.encoding)
         return ds2, ('attrs',)
     if edit == 'attr-change':
@@ -386,7 +386,7 @@ def scn_hash_string(c):
 def scn_hash_attributes(c):
     it = new_interp()
     f = fn(it, 'emsarray.operations.cache', 'hash_attributes')
-    for attrs in [{}, {'units': 'degrees_north'}, {'units': 'm', 'bounds': 'b', 'n': 3}]:
+    for attrs in [{}, {'units': 'degrees_north'}, {'units': 'm', 'bounds': 'b', 'n': 3}, {'_FillValue': -999, 'start_index': 1}, {'_CoordinateAxisType': 'Lat'}]:
         h = HashModel()
         expect_ok(c, 'hash_attributes returns', lambda: call(it, f, h, attrs))
         ch = h.chunks
